@@ -342,6 +342,58 @@ pub fn run_sign(scn: &Scenario, ctx: &mut Ctx) {
                 }
                 ctx.t(&format!("S.Detached {} {}", sch, id));
             }
+            "S.Redact" => {
+                // a holder obscures one whole 'signed' assertion in a copy; then either the redacted assertion is added
+                // to the full envelope again (it is already there: nothing changes), or the original assertion is put
+                // back into the redacted copy with replace_assertion (same digest). Every signature verifies as before.
+                let signed_d = digest_of(&Envelope::new(known_values::SIGNED));
+                let cands: Vec<Envelope> = s
+                    .env
+                    .assertions()
+                    .into_iter()
+                    .filter(|a| match a.subject().case() {
+                        bc_envelope::base::envelope::EnvelopeCase::Assertion(x) => digest_of(&x.predicate()) == signed_d,
+                        _ => false,
+                    })
+                    .collect();
+                if cands.is_empty() {
+                    continue;
+                }
+                let a = cands[(st.arg(0) % cands.len() as u64) as usize].clone();
+                let act = obscure_action(match st.arg(1) % 3 {
+                    0 => Obsc::Elided,
+                    1 => Obsc::Encrypted(2),
+                    _ => Obsc::Compressed,
+                });
+                let full = s.env.clone();
+                // (obscuring works by digest: if the same assertion also occurs elsewhere - a deterministic signature
+                // under another signer's metadata, say - the redaction reaches that copy too, which is another story)
+                if hist::walk_digests(&full).iter().filter(|x| **x == digest_of(&a)).count() != 1 {
+                    continue;
+                }
+                let res = guarded(|| -> Result<Envelope, String> {
+                    let redacted_copy = full.elide_removing_target_with_action(&a, &act);
+                    let hidden = redacted_copy.assertions().into_iter().find(|x| digest_of(x) == digest_of(&a)).ok_or("the obscured assertion is gone")?;
+                    if st.arg(2) % 2 == 0 {
+                        full.add_assertion_envelope(hidden).map_err(|e| e.to_string())
+                    } else {
+                        redacted_copy.replace_assertion(hidden, a.clone()).map_err(|e| e.to_string())
+                    }
+                });
+                ctx.checked();
+                match res {
+                    Ok(Ok(e)) => {
+                        if e.to_cbor_data() != full.to_cbor_data() {
+                            ctx.violate("C09.table", format!("putting a 'signed' assertion next to / in place of its own obscured form (variant {}) did not give back the signed envelope", st.arg(2) % 2));
+                        }
+                        s.env = e;
+                        ctx.probe("signed-assertion-redacted-and-restored");
+                    }
+                    Ok(Err(e)) => ctx.violate("C09.table", format!("restoring a redacted 'signed' assertion was refused: {}", e)),
+                    Err(p) => ctx.violate_sig("C16.no-panic", format!("restoring a redacted 'signed' assertion panicked: {}", p), p),
+                }
+                ctx.t("S.Redact");
+            }
             "S.AddOther" => {
                 // an unrelated assertion: the subject digest is unchanged, so every signature stays valid
                 s.env = s.env.add_assertion(format!("k{}", st.arg(0) % 5), st.arg(1) % 100);
@@ -705,7 +757,13 @@ pub fn generate_sign(property: &str, r: &mut SimRng, seed: u64) -> Scenario {
             0..=3 => scn.push("S.Sign", &[r.below(16), r.below(3), r.below(9)]),
             4 => scn.push("S.SignBatch", &[r.next(), r.below(4)]),
             5 => scn.push("S.Detached", &[r.below(4), r.below(3), r.below(6)]),
-            6 => scn.push("S.AddOther", &[r.below(5), r.below(100)]),
+            6 => {
+                if r.chance(1, 2) {
+                    scn.push("S.AddOther", &[r.below(5), r.below(100)])
+                } else {
+                    scn.push("S.Redact", &[r.below(8), r.below(3), r.below(2)])
+                }
+            }
             7..=8 => scn.push("S.ObscureSubject", &[r.below(3), r.below(4)]),
             9 => scn.push("S.ObscureOther", &[r.below(8), r.below(3)]),
             10 => scn.push("S.ObscureSigObject", &[r.below(8), r.below(3)]),
@@ -876,6 +934,17 @@ pub fn run_recip(scn: &Scenario, ctx: &mut Ctx) {
                         ctx.violate("C10.transport", "encrypted envelope does not decode".to_string());
                         continue;
                     }
+                };
+                // a holder may have elided the 'hasRecipient' predicate itself (the assertions are then found by its
+                // digest): everything below holds for that copy just the same
+                let delivered = if (st.arg(3) >> 10) % 4 == 1 && !om.digest_set().contains(&digest_of(&Envelope::new(known_values::HAS_RECIPIENT))) {
+                    ctx.probe("recipient-predicate-obscured");
+                    match transmit(ctx, &delivered.elide_removing_target(&Envelope::new(known_values::HAS_RECIPIENT))) {
+                        Some(x) => x,
+                        None => delivered,
+                    }
+                } else {
+                    delivered
                 };
                 for id in 0..6u8 {
                     let (sk, _) = keys::encap(scheme_of(id), id);
@@ -1210,7 +1279,15 @@ pub fn run_sskr(scn: &Scenario, ctx: &mut Ctx) {
                 if digest_of(&e.subject()) != want_subject_digest || !e.is_subject_encrypted() {
                     ctx.violate("C11.share-subject", "a share envelope does not carry the digest-preserving encrypted subject of the original".to_string());
                 }
-                // custodian round trip through the network
+                // custodian round trip through the network (now and then a custodian elides the 'sskrShare' predicate:
+                // the share assertion is still found by the predicate's digest)
+                let kept = if (st.arg(2) >> 4) % 4 == 1 && !om.digest_set().contains(&digest_of(&Envelope::new(known_values::SSKR_SHARE))) {
+                    ctx.probe("share-predicate-obscured");
+                    e.elide_removing_target(&Envelope::new(known_values::SSKR_SHARE))
+                } else {
+                    e.clone()
+                };
+                let e = &kept;
                 match transmit(ctx, e) {
                     Some(x) => flat.push(((gi, mi), x)),
                     None => ctx.violate("C11.transport", "a share envelope does not survive encode/decode".to_string()),
@@ -1404,7 +1481,7 @@ pub fn generate_sskr(property: &str, r: &mut SimRng, seed: u64) -> Scenario {
     let keep = r.range(2, 6) as usize;
     scn.steps.truncate(keep.max(2));
     let op = *r.pick(&["K.Subsets", "K.Subsets", "K.Subsets", "K.Dup", "K.Foreign", "K.Extreme", "K.Resplit"]);
-    scn.push(op, &[ds(r), r.next(), r.below(16), r.next()]);
+    scn.push(op, &[ds(r), r.next(), r.below(64), r.next()]);
     scn
 }
 
